@@ -75,6 +75,11 @@ std::string World::call_fn(int obj, int fn, int a1, int a2) {
         for (int s = 0; s < NSLOT; ++s) if (&r == &cell[s]) return "ref:" + std::to_string(s);
         return "ref:?";
       }
+      case CR1: {
+        const int& r = x.cr(a1);
+        int v = r;  // reads through the returned reference: it must designate a live object (the sanitizer build checks)
+        return "cref:" + std::to_string(v);
+      }
     }
     return "?";
   };
@@ -165,6 +170,7 @@ Outcome World::apply(const Op& op) {
           o.kind = OK_ACCEPT;
           if (o.retv.compare(0, 2, "r:") == 0) o.handler = atoi(o.retv.c_str() + 2) - 100;
           else if (o.retv.compare(0, 4, "ref:") == 0) o.handler = atoi(o.retv.c_str() + 4);
+          else if (o.retv.compare(0, 5, "cref:") == 0) o.handler = atoi(o.retv.c_str() + 5) - 700;
           else o.handler = -2;
         } catch (Fatal&) {
           if (raw.empty() || !raw.back().fatal) { o.kind = OK_OTHER; o.harness_error = "Fatal without fatal report"; }
@@ -310,6 +316,7 @@ Report parse_report(const World& w, const RawReport& r) {
     else if (head == "g with signature int(int) with.") fn = G1;
     else if (head == "v with signature void(int) with.") fn = V1;
     else if (head == "r with signature int&(int) with.") fn = R1;
+    else if (head == "cr with signature const int&(int) with.") fn = CR1;
     size_t i = 1; while (i < lines.size() && lines[i].compare(0, 8, "  param ") == 0) ++i;
     std::string args; bool ok = parse_actual_params(lines, 1, i, &args);
     d << "fn=" << fn << " args=" << (ok ? args : "?") << ' ';
